@@ -97,9 +97,10 @@ def check(ctx, pid=PID, props=PROPS, only_nofault=False):
     nofault_of = {(c, a): l for (c, a), l in zip(base, nofault)}
     triples = [(c, "@N", a) for c, a in base]
     if pid == "C08":
-        # default allocator (NULL) variants: ASan's leak check at exit covers them; plus a sample of faults
+        # default allocator (NULL) variants: ASan's leak check at exit covers them; plus the faults of every base case
+        # (a sample of the base cases here used to depend on their positions in the list: every case is cheap)
         triples += [(c, "@D", a) for c, a in base]
-        triples += expand(ctx, base[::3], nofault[::3], "quick", r)
+        triples += expand(ctx, base, nofault, "quick", r)
     else:
         triples += expand(ctx, base, nofault, ctx.tier, r)
     cases = [fc.case_line(*t) for t in triples]
